@@ -197,6 +197,46 @@ func (x *fnExec) generate() {
 			x.errors = append(x.errors, fmt.Sprintf("anchor-lost: at call %s assert#%s: no such call in %s", ac.Callee, ac.Clause.Label, c.Key))
 		}
 	}
+	for n, ls := range c.Loops {
+		if len(ls.Complete) == 0 {
+			continue
+		}
+		for _, li := range fr.loops {
+			if li.ordinal != n {
+				continue
+			}
+			// every edge that leaves the loop must start at its header (the range/condition test)
+			var early []string
+			for b := range li.body {
+				if b == li.header {
+					continue
+				}
+				for _, s := range b.Succs {
+					if !li.body[s] {
+						early = append(early, fmt.Sprintf("block %d -> %d", b.Index, s.Index))
+					}
+				}
+				for _, in := range b.Instrs {
+					if _, isRet := in.(*ssa.Return); isRet {
+						early = append(early, fmt.Sprintf("return in block %d", b.Index))
+					}
+				}
+			}
+			sort.Strings(early)
+			entry := &State{pc: True, heap: map[string]*Term{}, epoch: &epochExpr{leaf: "pre"}}
+			tags := ls.Complete
+			if len(tags) == 1 && tags[0] == "-" {
+				tags = c.Tags
+			}
+			goal := True
+			site := "loop is left only through its header"
+			if len(early) > 0 {
+				goal = False
+				site = "early exit: " + strings.Join(early, ", ")
+			}
+			x.obligation(entry, fmt.Sprintf("%s:loop %d:complete", c.Key, n), "structure", site, tags, goal, nil, "the loop visits every element: no break or return inside the body")
+		}
+	}
 	for _, ac := range c.AtStores {
 		if x.atCallHits[ac] == 0 {
 			x.errors = append(x.errors, fmt.Sprintf("anchor-lost: at store %s assert#%s: no such store in %s", ac.Callee, ac.Clause.Label, c.Key))
@@ -257,6 +297,9 @@ func (x *fnExec) frameObligations(fr *frame, r retEdge, site string) {
 	}
 	sort.Strings(keys)
 	for _, k := range keys {
+		if strings.HasPrefix(k, "X:") {
+			continue // ghost state (lock ownership, send counters) is not part of the frame
+		}
 		if strings.HasPrefix(k, "M:") || k == "E:*" {
 			// maps: require an explicit whole-map target
 			x.note("frame check does not cover map arrays (%s)", k)
